@@ -10,38 +10,54 @@
 (***************************************************************************)
 EXTENDS Naturals, Integers, FiniteSets, Sequences, TLC
 
-CONSTANTS Threads, Scans, CountInsideIf
+CONSTANTS Threads, Scans, CountInsideIf,
+          SaveMask,      \* TRUE = as built: sigsetjmp(jb, 1) saves the signal mask and siglongjmp out of the handler restores it
+          MaxFaults      \* memory faults (SIGBUS) that may hit a thread while it is inside the protected body
 
 VARIABLES pc,        \* thread -> "idle" | "locked1" | "body" | "locked2" | "done"
           left,      \* scans left per thread
           mutex,     \* holder (thread id) or 0 = free
           usecount, installed,
-          log        \* hook H5 events <<kind, usecount, installed>> in mutex order (history)
-svars == <<pc, left, mutex, usecount, installed, log>>
-svarsNoLog == <<pc, left, mutex, usecount, installed>>
+          log,       \* hook H5 events <<kind, usecount, installed>> in mutex order (history)
+          blocked,   \* thread -> the fault signals are blocked in the thread's signal mask
+          faults,    \* thread -> faults taken so far
+          killed     \* the process was killed by a signal nobody caught
+svars == <<pc, left, mutex, usecount, installed, log, blocked, faults, killed>>
+svarsNoLog == <<pc, left, mutex, usecount, installed, blocked, faults, killed>>
 
 Lock1(t) == /\ pc[t] = "idle" /\ left[t] > 0 /\ mutex = 0
             /\ mutex' = t /\ pc' = [pc EXCEPT ![t] = "locked1"]
-            /\ UNCHANGED <<left, usecount, installed, log>>
+            /\ UNCHANGED <<left, usecount, installed, log, blocked, faults, killed>>
 Enter(t) == /\ pc[t] = "locked1"
             /\ installed' = (installed \/ usecount = 0)                 \* sigaction(install) on 0
             /\ usecount' = IF CountInsideIf THEN (IF usecount = 0 THEN 1 ELSE usecount) ELSE usecount + 1
             /\ log' = Append(log, <<1, usecount', installed'>>)
             /\ mutex' = 0 /\ pc' = [pc EXCEPT ![t] = "body"]
-            /\ UNCHANGED left
+            /\ UNCHANGED <<left, blocked, faults, killed>>
 Lock2(t) == /\ pc[t] = "body" /\ mutex = 0
             /\ mutex' = t /\ pc' = [pc EXCEPT ![t] = "locked2"]
-            /\ UNCHANGED <<left, usecount, installed, log>>
+            /\ UNCHANGED <<left, usecount, installed, log, blocked, faults, killed>>
 Leave(t) == /\ pc[t] = "locked2"
             /\ usecount' = usecount - 1
             /\ installed' = IF usecount' = 0 THEN FALSE ELSE installed    \* sigaction(restore) on 0
             /\ log' = Append(log, <<2, usecount', installed'>>)
             /\ mutex' = 0 /\ left' = [left EXCEPT ![t] = @ - 1]
             /\ pc' = [pc EXCEPT ![t] = "idle"]
+            /\ UNCHANGED <<blocked, faults, killed>>
+\* a memory fault while the scan reads the data (a mapped file that was cut): the kernel delivers SIGBUS to the faulting thread.
+\* With no handler installed, or with the signal blocked in that thread, the process is killed.  Otherwise the handler runs
+\* (all signals blocked while it does) and leaves through siglongjmp to the sigsetjmp of YR_TRYCATCH: the scan goes on to its
+\* exit path with ERROR_COULD_NOT_MAP_FILE; the thread's mask is the one saved by sigsetjmp - if it saved one.
+Fault(t) == /\ pc[t] = "body" /\ ~killed /\ faults[t] < MaxFaults
+            /\ faults' = [faults EXCEPT ![t] = @ + 1]
+            /\ IF ~installed \/ blocked[t] THEN killed' = TRUE /\ UNCHANGED blocked
+               ELSE killed' = killed /\ blocked' = [blocked EXCEPT ![t] = ~SaveMask]
+            /\ UNCHANGED <<pc, left, mutex, usecount, installed, log>>
 
 SInit == /\ pc = [t \in Threads |-> "idle"] /\ left = [t \in Threads |-> Scans] /\ mutex = 0
          /\ usecount = 0 /\ installed = FALSE /\ log = << >>
-SNext == \E t \in Threads : Lock1(t) \/ Enter(t) \/ Lock2(t) \/ Leave(t)
+         /\ blocked = [t \in Threads |-> FALSE] /\ faults = [t \in Threads |-> 0] /\ killed = FALSE
+SNext == \E t \in Threads : Lock1(t) \/ Enter(t) \/ Lock2(t) \/ Leave(t) \/ Fault(t)
 SSpec == SInit /\ [][SNext]_svars /\ WF_svars(SNext)
 
 InBody == {t \in Threads : pc[t] \in {"body", "locked2"}}
@@ -52,6 +68,9 @@ CountExact == mutex = 0 => usecount = Cardinality(InBody)
 InstalledIffUsed == mutex = 0 => (installed <=> usecount > 0)
 NonNegative == usecount >= 0
 AllDone == <>(\A t \in Threads : left[t] = 0)
+\* a fault inside the protected body never kills the process, and a scan leaves the calling thread's signal mask as it found it
+NeverKilled == ~killed
+MaskRestored == \A t \in Threads : pc[t] = "idle" => ~blocked[t]
 
 \* ---- judgement of a recorded event sequence (hook H5, sequence taken under the mutex):
 \* replaying the events must reproduce the model's counter: enter -> +1, leave -> -1, installed iff count > 0
@@ -62,5 +81,9 @@ HookTraceOK(c) ==
                                  /\ evs[i][2] >= 0
                                  /\ evs[i][3] = (IF evs[i][2] > 0 THEN 1 ELSE 0)
      /\ (Len(evs) > 0 => evs[Len(evs)][2] = 0)
+
+\* ---- judgement of a recorded sequence of faulting scans made by one thread (Fault above, SaveMask as built): each returns
+\* ERROR_COULD_NOT_MAP_FILE (4) and leaves the thread's signal mask unchanged (the run itself shows that nothing was killed)
+BusTraceOK(c) == \A i \in 1..Len(c.scans) : c.scans[i].ret = 4 /\ ~c.scans[i].mask_changed
 
 =============================================================================
